@@ -31,68 +31,73 @@ def items(pr):
 
 def collect(pr):
     out = []
-    f = A.func_node(pr.tree, Q)
+    F = A.Fn(pr.tree, Q)
+    f = F.node
     if f is None:
         return [A.bvc(Q, "collect", "function_present", False, REL, open_=True)]
-    s = ast.unparse(f)
     loops = A.loops_of(f)
-    first = next((lp for lp in loops if ast.unparse(lp.iter) == "asset_to_computed_data.items()"), None)
+    first = next((lp for lp in loops if A.expr_eq("asset_to_computed_data.items()", ast.unparse(lp.iter), F.scope)), None)
     out.append(A.bvc(Q, "collect", "first_pass_visits_every_asset", first is not None and not [n for n in ast.walk(first) if isinstance(n, (ast.Break, ast.Continue, ast.Return))], REL))
-    body = ast.unparse(first) if first is not None else ""
+    has1 = lambda sn: first is not None and A.has(first, sn, F.mod, scope=F.scope)
     out.append(A.bvc(Q, "collect", "lot_term_is_cost_with_fee_times_unsold_share",
-                     "for current_transaction in computed_data.in_transaction_set:" in body and
-                     "sold_percent: RP2Decimal = computed_data.get_in_lot_sold_percentage(in_transaction)" in body and
-                     "transaction_cost_basis: RP2Decimal = in_transaction.fiat_in_with_fee * (RP2Decimal('1') - sold_percent)" in body and
-                     "in_transaction = cast(InTransaction, current_transaction)" in body, REL))
+                     has1("for current_transaction in computed_data.in_transaction_set:\n    in_transaction = cast(InTransaction, current_transaction)\n"
+                          "    sold_percent = computed_data.get_in_lot_sold_percentage(in_transaction)\n"
+                          "    transaction_cost_basis = in_transaction.fiat_in_with_fee * (RP2Decimal('1') - sold_percent)\n    ..."), REL))
     out.append(A.bvc(Q, "collect", "positive_terms_go_to_the_assets_and_the_portfolios_cost",
-                     "if transaction_cost_basis > ZERO:\n            value = asset_cost_bases.setdefault(asset, ZERO)\n            value += transaction_cost_basis\n            asset_cost_bases[asset] = value\n            total_cost_basis += transaction_cost_basis" in body, REL))
-    out.append(A.bvc(Q, "collect", "totals_start_at_zero_and_are_not_reset", "total_cost_basis = ZERO\n" in s and s.count("total_cost_basis = ") == 1 and s.count("asset_cost_bases: Dict[str, RP2Decimal] = {}") == 1, REL))
-    bal = ("for balance_set in computed_data.balance_set:\n        if balance_set.final_balance > ZERO:\n            if balance_set.holder not in holders:\n                holders.append(balance_set.holder)\n"
-           "            if asset not in asset_crypto_balance_holder:\n                asset_crypto_balance_holder[asset] = {}\n                asset_crypto_balance_holder_exchange[asset] = {}\n"
-           "            if balance_set.holder not in asset_crypto_balance_holder[asset]:\n                asset_crypto_balance_holder[asset][balance_set.holder] = ZERO\n"
-           "                asset_crypto_balance_holder_exchange[asset][balance_set.holder] = {}\n"
-           "            asset_crypto_balance_holder[asset][balance_set.holder] += balance_set.final_balance\n"
-           "            if balance_set.exchange not in asset_crypto_balance_holder_exchange[asset][balance_set.holder]:\n"
-           "                asset_crypto_balance_holder_exchange[asset][balance_set.holder][balance_set.exchange] = balance_set.final_balance")
-    out.append(A.bvc(Q, "collect", "every_positive_final_balance_is_recorded_per_holder_and_per_holder_exchange", bal in body, REL))
+                     has1("if transaction_cost_basis > ZERO:\n    value = asset_cost_bases.setdefault(asset, ZERO)\n    value += transaction_cost_basis\n    asset_cost_bases[asset] = value\n    total_cost_basis += transaction_cost_basis"), REL))
+    tcb = F.scope.env.get("total_cost_basis", "total_cost_basis")
+    acb = F.scope.env.get("asset_cost_bases", "asset_cost_bases")
+    stores = lambda name: [n for n in ast.walk(f) if isinstance(n, ast.Name) and isinstance(n.ctx, ast.Store) and n.id == name]
+    out.append(A.bvc(Q, "collect", "totals_start_at_zero_and_are_not_reset", F.has("total_cost_basis = ZERO") and F.has("asset_cost_bases = {}") and len(stores(tcb)) == 2 and len(stores(acb)) == 1, REL,
+                     f"{len(stores(tcb))} bindings of the portfolio total, {len(stores(acb))} of the per-asset map"))
+    bal = ("for balance_set in computed_data.balance_set:\n    if balance_set.final_balance > ZERO:\n        if balance_set.holder not in holders:\n            holders.append(balance_set.holder)\n"
+           "        if asset not in asset_crypto_balance_holder:\n            asset_crypto_balance_holder[asset] = {}\n            asset_crypto_balance_holder_exchange[asset] = {}\n"
+           "        if balance_set.holder not in asset_crypto_balance_holder[asset]:\n            asset_crypto_balance_holder[asset][balance_set.holder] = ZERO\n"
+           "            asset_crypto_balance_holder_exchange[asset][balance_set.holder] = {}\n"
+           "        asset_crypto_balance_holder[asset][balance_set.holder] += balance_set.final_balance\n"
+           "        if balance_set.exchange not in asset_crypto_balance_holder_exchange[asset][balance_set.holder]:\n"
+           "            asset_crypto_balance_holder_exchange[asset][balance_set.holder][balance_set.exchange] = balance_set.final_balance")
+    out.append(A.bvc(Q, "collect", "every_positive_final_balance_is_recorded_per_holder_and_per_holder_exchange", has1(bal), REL))
     return out
 
 
 def report(pr):
     out = []
-    f = A.func_node(pr.tree, Q)
+    F = A.Fn(pr.tree, Q)
+    f = F.node
     if f is None:
         return [A.bvc(Q, "report", "function_present", False, REL, open_=True)]
-    s = ast.unparse(f)
     loops = A.loops_of(f)
-    second = next((lp for lp in loops if ast.unparse(lp.iter) == "asset_cost_bases.items()"), None)
+    second = next((lp for lp in loops if A.expr_eq("asset_cost_bases.items()", ast.unparse(lp.iter), F.scope)), None)
     out.append(A.bvc(Q, "report", "second_pass_visits_every_asset_with_unsold_cost", second is not None and
                      not [n for n in ast.walk(second) if isinstance(n, (ast.Break, ast.Continue, ast.Return))], REL))
-    body = ast.unparse(second) if second is not None else ""
+    has2 = lambda sn: second is not None and A.has(second, sn, F.mod, scope=F.scope)
     out.append(A.bvc(Q, "report", "unit_cost_is_asset_cost_over_total_balance",
-                     "total_crypto_balance = ZERO\n    for crypto_balance in asset_crypto_balance_holder[asset].values():\n        total_crypto_balance += crypto_balance\n"
-                     "    unit_cost_basis: RP2Decimal = asset_cost_basis / total_crypto_balance" in body, REL))
-    env = {"asset": "ASSET", "asset_cost_basis": "ASSET_COST"}
-    hl = next((lp for lp in ast.walk(second) if isinstance(lp, ast.For) and ast.unparse(lp.iter) == "asset_crypto_balance_holder[asset].items()"), None) if second is not None else None
+                     has2("total_crypto_balance = ZERO\nfor crypto_balance in asset_crypto_balance_holder[asset].values():\n    total_crypto_balance += crypto_balance\n"
+                          "unit_cost_basis = asset_cost_basis / total_crypto_balance"), REL))
+    hl = next((lp for lp in ast.walk(second) if isinstance(lp, ast.For) and A.expr_eq("asset_crypto_balance_holder[asset].items()", ast.unparse(lp.iter), F.scope)), None) if second is not None else None
     w = A.Writer(f, hl, row_expr="row_indexes[_ASSET]") if hl is not None else None
     b = {0: "asset", 1: "ELT0", 2: "ELT1", 3: "unit_cost_basis", 4: "ELT1 * unit_cost_basis", 5: "ELT1 * unit_cost_basis / total_cost_basis"}
     out += A.writer_vcs(Q, REL, w, "asset_crypto_balance_holder[asset].items()", b, tag="asset_sheet")
     if w is not None:
-        out.append(A.bvc(Q, "writer", "asset_sheet_rows_go_to_the_asset_sheet_and_a_row_is_appended_for_each", {c[5] for c in w.cells} == {"asset_sheet"} and "asset_sheet.append_rows(1)" in ast.unparse(hl), REL))
+        sheets = {c[5] for c in w.cells}
+        out.append(A.bvc(Q, "writer", "asset_sheet_rows_go_to_the_asset_sheet_and_a_row_is_appended_for_each", len(sheets) == 1 and A.expr_eq("asset_sheet", next(iter(sheets)), F.scope) and
+                         A.has(hl, "asset_sheet.append_rows(1)", F.mod, scope=F.scope) and F.has("asset_sheet = output_file.sheets[_ASSET]"), REL))
     el = None
     if second is not None:
         for lp in ast.walk(second):
-            if isinstance(lp, ast.For) and ast.unparse(lp.iter) == "asset_crypto_balance_holder_exchange[asset].items()":
+            if isinstance(lp, ast.For) and A.expr_eq("asset_crypto_balance_holder_exchange[asset].items()", ast.unparse(lp.iter), F.scope):
                 el = lp
     inner = next((lp for lp in ast.walk(el) if isinstance(lp, ast.For) and lp is not el), None) if el is not None else None
-    ok_outer = el is not None and inner is not None and ast.unparse(inner.iter) == "exchanges.items()" and ast.unparse(el.target) in ("(holder, exchanges)", "holder, exchanges") and len(el.body) == 1
-    out.append(A.bvc(Q, "writer", "asset_exchange_rows_iterate_every_holder_and_every_exchange_of_it", ok_outer, REL))
+    ok_outer = el is not None and inner is not None and isinstance(el.target, ast.Tuple) and len(el.target.elts) == 2 and len(el.body) == 1 and \
+        ast.unparse(inner.iter) == ast.unparse(el.target.elts[1]) + ".items()"
+    out.append(A.bvc(Q, "writer", "asset_exchange_rows_iterate_every_holder_and_every_exchange_of_it", bool(ok_outer), REL))
     w2 = A.Writer(f, inner, row_expr="row_indexes[_ASSET_EXCHANGE]") if inner is not None else None
     b2 = {0: "asset", 1: "holder", 2: "ELT0", 3: "ELT1", 4: "unit_cost_basis", 5: "ELT1 * unit_cost_basis", 6: "ELT1 * unit_cost_basis / total_cost_basis"}
     out += A.writer_vcs(Q, REL, w2, "exchanges.items()", b2, tag="asset_exchange_sheet")
-    # nothing between the two passes touches the collected figures
-    out.append(A.bvc(Q, "report", "report_pass_runs_after_the_collection_pass_over_all_assets",
-                     0 <= s.find("for asset, computed_data in asset_to_computed_data.items():") < s.find("for asset, asset_cost_basis in asset_cost_bases.items():"), REL))
+    first = next((lp for lp in loops if A.expr_eq("asset_to_computed_data.items()", ast.unparse(lp.iter), F.scope)), None)
+    out.append(A.bvc(Q, "report", "report_pass_runs_after_the_collection_pass_over_all_assets", first is not None and second is not None and first in f.body and second in f.body and
+                     f.body.index(first) < f.body.index(second), REL))
     return out
 
 
